@@ -43,6 +43,12 @@ NEEDS = {
     'C13-agent2': ('C13', 'monotonicity check rewritten as `np.any(np.diff(b) <= 0)`: equivalent for finite values, but a NaN interior boundary is now accepted (comparisons with NaN are False)', ['C13']),
     'C18-agent2': ('C18', 'Scale.dimensionalize converts the scaling factor to the target unit first and multiplies magnitudes: correct for multiplicative units, wrong for offset temperature units (degC, degF), where the conversion is affine', ['C18']),
     'C20-agent2': ('C20', 'boundary-layer ramp factored into a helper with default sigma_b=0.7; kv() calls it without the configured sigma_b: identical for the default, wrong friction profile for any other sigma_b', ['C20']),
+    'C02-agent4': ('C02', 'get_cos_lat_vector drops clip=clip on the velocity-potential (divergent) gradient: needs the non-default clip=False (the path primitive_equations uses) AND divergence with energy at l = L-2, whose cos-lat gradient legitimately reaches l = L-1', ['C02']),
+    'C03-agent4': ('C03', 'get_temperature_implicit_weights scales H by the row thickness instead of the column thickness: identical on equidistant levels and for the dense product with the split/stacked solve; needs unevenly spaced sigma levels AND the sparse (cumulative-sum) product or the blockwise solve', ['C03']),
+    'C06-agent4': ('C06', 'coefficient-length guard rewritten as a chained `!=`: raises only when both length relations are violated at once; needs a user-supplied coefficient set with exactly one inconsistent length (an extra gamma, or the RK4 alphas with the RK3 betas)', ['C06']),
+    'C10-agent4': ('C10', 'moist curl_and_div_tendencies refactored to add the virtual-temperature pressure-gradient correction with the (-v, u) rotation applied to it: needs the moist equations, non-zero humidity, non-zero temperature variation AND non-uniform surface pressure; breaks mirror equivariance only (rotation intact)', ['C10']),
+    'C11-agent4': ('C11', 'shallow-water orography term hoisted out of clip_wavenumbers: needs a shallow-water model over an orography with energy at the top total wavenumber (grid.to_modal of a nodal mountain); flat or truncated orography unaffected', ['C11']),
+    'C15-agent4': ('C15', 'leapfrog_step_filter takes the middle time level from u instead of u_next: identical when the adapter runs first (u_next[0] is u[1]); needs an earlier filter that modifies the middle level (Robert-Asselin before the exponential filter) or a direct call with independent u, u_next', ['C15']),
     'C14-agent3': ('C14', 'trajectory_from_step returns the raw carry instead of post_process_fn(carry) as the frame when start_with_input=True: invisible with the default start_with_input=False and whenever post_process_fn is the identity; needs start_with_input=True AND a non-identity post_process_fn', ['C14']),
     'C16-agent3': ('C16', 'periodic longitude cell bounds computed from roll(x, -+1) with the period added only at the array end instead of aligning each neighbour to its point: identical when the longitudes are increasing after `% period`; needs a grid whose longitude_offset is negative or exceeds one cell width (0 / 2 pi seam inside the array)', ['C16']),
     'C17-agent3': ('C17', '_dot_interp (matrix / accelerator path of interp) loses the clip of the searchsorted index: needs that path to be executed (TPU dispatch or a direct call; CPU tests never run it) AND a query exactly equal to the last source node, where all weights become zero and the result is 0 instead of fp[-1]', ['C17']),
